@@ -2,7 +2,7 @@
 C13 -- requests are independent: nothing leaks from one dispatch into the next (inductive step).
 
 Invariant: the fingerprint of everything a dispatch can read besides its arguments -- registry, middleware chain, handler
-table, the error-class registry, every module-level mutable object and every functools.lru_cache found by scanning the
+table, the error-class registry, every module-level mutable object or library object instance (e.g. the default validator) and every functools.lru_cache found by scanning the
 imported pjrpc modules (sizes included) -- is the same before and after EVERY single dispatch.  Because the fingerprint
 is unchanged by each step, histories of any length follow by induction.
 """
@@ -19,14 +19,14 @@ ENGINE = {'live_lru': True}       # S14: CrossHair's patch that bypasses functoo
 MANIFEST = dict(
     text="Inductive-step symbolic check on the real dispatchers: for every request skeleton (object members over the kind alphabet with a symbolic method name that the solver resolves to a plain function, a context-taking function, a class-based view method, "
          "a JSON-schema validated method or no method; 0..2-element batches) one dispatch with a FRESH context object must leave the fingerprint of all library-held state unchanged (a deep structural snapshot of everything reachable from the dispatcher object - registry, Method objects and their attributes, middleware chain, handler table -, the "
-         "error-class registry, every module-level mutable object and every functools.lru_cache of the imported pjrpc modules incl. their sizes -- found by a scan that is recomputed on every run), a symbolic probe request dispatched afterwards must be answered exactly as on a fresh dispatcher, "
+         "error-class registry, every module-level mutable object or library object instance (e.g. the default validator) and every functools.lru_cache of the imported pjrpc modules incl. their sizes -- found by a scan that is recomputed on every run), a symbolic probe request dispatched afterwards must be answered exactly as on a fresh dispatcher, "
          "and (on each path's concrete witness, in the plain interpreter) the context object must be collectable after gc. Unchanged fingerprint per step => histories of any length, N in {1, 10, 1000} included, by induction.",
     ref='5 C13',
     note="NOT covered (no thread model in a Python-level symbolic executor): dispatching from several threads. NOT covered: PydanticValidator (compiled pydantic_core; unusable under the installed pydantic). "
          "'Collectable by the GC' is decided on the concrete witness of every path (weakref + gc.collect), not by the solver. S14: lru_cache live under tracing (cache keys in pjrpc are concrete objects).",
 )
 BOUNDS = {
-    'quick': {'step requests': 'jsonrpc in {str, symbolic other} x id in {absent,int,str,bool} x method symbolic str (7 registered methods incl. one with defaulted positional-only parameters) x params in K; batches of 0..2 elements over 7 element kinds', 'probe': 'after a concrete first request to each method kind: method symbolic (unbounded string), params in {[int], [int,2,3], {"x": int}}',
+    'quick': {'step requests': 'jsonrpc in {str, symbolic other} x id in {absent,int,str,bool} x method symbolic str (9 registered methods incl. one with defaulted positional-only parameters and two without parameters) x params in K; batches of 0..2 elements over 7 element kinds', 'probe': 'after a concrete first request to each method kind: method symbolic (unbounded string), params in {[int], [int,2,3], {"x": int}}',
               'dispatchers': 'sync, async'},
     'thorough': {'step requests': 'jsonrpc in K x id in K x method in {absent,int,str} x params in K', 'probe': 'as quick', 'dispatchers': 'sync, async'},
 }
@@ -34,7 +34,7 @@ STUBS = ['S1', 'S4 (+ jsonschema.ValidationError.__str__ constant)', 'S5', 'S13'
 OUTSIDE = ['threads', 'PydanticValidator', 'methods that keep state of their own']
 ASSUMPTIONS = []
 BUDGET = {'quick': 40.0, 'thorough': 120.0}
-ELS = ('echo', 'ctxm', 'vm', 'js', 'nosuch', 'notif_vm', 'pos')
+ELS = ('echo', 'ctxm', 'vm', 'js', 'nosuch', 'notif_vm', 'pos', 'whoami', 'ping')
 
 
 def setup():
@@ -54,7 +54,7 @@ def obligations(tier):
             prod = it.product(KINDS, KINDS, ('absent', 'int', 'str'), KINDS)
         for kj, ki, km, kp in prod:
             obs.append({'h': 'step', 'disp': disp, 'k': [kj, ki, km, kp]})
-        for first in ('echo', 'ctxm', 'vm', 'js', 'pos', 'nosuch'):
+        for first in ('echo', 'ctxm', 'vm', 'js', 'pos', 'nosuch', 'whoami', 'ping'):
             obs.append({'h': 'probe', 'disp': disp, 'first': first, '_budget': 90.0})
         for n in (0, 1, 2):
             for combo in it.product(ELS, repeat=n):
@@ -140,6 +140,20 @@ def _build_dispatcher(env, wire, disp):
     else:
         def pos(a, b=10, c=100, /):
             return [a, b, c]
+    if is_async:
+        async def whoami(ctx):
+            return 'me'
+
+        async def ping():
+            return 'pong'
+    else:
+        def whoami(ctx):
+            return 'me'
+
+        def ping():
+            return 'pong'
+    d.add(whoami, name='whoami', context='ctx')       # context by name, no client parameters at all
+    d.add(ping, name='ping')
     d.add(pos, name='pos')
     d.add(echo, name='echo')
     d.add(ctxm, name='ctxm', context='ctx')
@@ -151,7 +165,7 @@ def _build_dispatcher(env, wire, disp):
 def _caches_and_globals():
     """Scan the imported pjrpc modules for lru caches and module-level mutable containers."""
     import sys
-    caches, globs = {}, {}
+    caches, globs, insts = {}, {}, {}
     for modname, mod in sorted(sys.modules.items()):
         if not (modname == 'pjrpc' or modname.startswith('pjrpc.')) or mod is None:
             continue
@@ -164,13 +178,16 @@ def _caches_and_globals():
                 caches[f'{modname}.{name}'] = val
             elif isinstance(val, (dict, list, set)) and getattr(val, '__module__', None) is None:
                 globs[f'{modname}.{name}'] = val
+            elif not isinstance(val, type) and type(val).__module__.startswith('pjrpc') and hasattr(val, '__dict__') \
+                    and not callable(val):
+                insts[f'{modname}.{name}'] = val          # e.g. pjrpc.server.dispatcher.default_validator
             elif isinstance(val, type) and val.__module__ == modname:
                 for an, av in sorted(vars(val).items()):
                     if hasattr(av, 'cache_info') and hasattr(av, 'cache_clear'):
                         caches[f'{modname}.{name}.{an}'] = av
                     elif isinstance(av, (dict, list, set)) and not an.startswith('__'):
                         globs[f'{modname}.{name}.{an}'] = av
-    return caches, globs
+    return caches, globs, insts
 
 
 class _Id:
@@ -215,8 +232,9 @@ def _deep(obj, depth=0, seen=None):
 
 def _fingerprint(d):
     import pjrpc
-    caches, globs = _caches_and_globals()
+    caches, globs, insts = _caches_and_globals()
     fp = {
+        'module_level_instances': {k: _deep(v) for k, v in insts.items()},
         'deep': _deep(d),
         'registry': [(k, _Id(v)) for k, v in d.registry.items()],
         'middlewares': [_Id(m) for m in d._middlewares],
@@ -250,7 +268,7 @@ def _step(env, ob, make_doc, probe=False):
         fresh = _build_dispatcher(env, wire, ob['disp'])
         # warm-up (set-up, concrete): one dispatch per method kind so that legitimately cached per-method data exists
         for dd in (d, fresh):
-            for m, p in (('echo', [1]), ('ctxm', [1]), ('vm', [1]), ('js', {'a': 1}), ('js', {'a': 'x'}), ('nosuch', []), ('pos', [1, 2, 3])):
+            for m, p in (('echo', [1]), ('ctxm', [1]), ('vm', [1]), ('js', {'a': 1}), ('js', {'a': 'x'}), ('nosuch', []), ('pos', [1, 2, 3]), ('ping', []), ('whoami', [])):
                 _dispatch(dd, ob['disp'], wire.encode({'jsonrpc': '2.0', 'id': 1, 'method': m, 'params': p}), Ctx())
         before = _fingerprint(d)
     doc = make_doc()
@@ -282,6 +300,8 @@ def _step(env, ob, make_doc, probe=False):
     pm = env.str('probe.method')
     pp = {'x': env.int('probe.x')} if env.bool('probe.named') else ([env.int('probe.x')] if env.bool('probe.short') else [env.int('probe.x'), 2, 3])
     pdoc = {'jsonrpc': '2.0', 'id': env.int('probe.id'), 'method': pm, 'params': pp}
+    if env.bool('probe.noparams'):
+        del pdoc['params']
     try:
         a = _dispatch(d, ob['disp'], wire.encode(pdoc), Ctx())
         b = _dispatch(fresh, ob['disp'], wire.encode(pdoc), Ctx())
@@ -322,7 +342,7 @@ def h_probe(ob):
     def run(env):
         def make_doc():
             m = ob['first']
-            params = {'a': 1} if m == 'js' else ([env.int('first.x')] if m != 'nosuch' else [])
+            params = {'a': 1} if m == 'js' else ([env.int('first.x')] if m not in ('nosuch', 'whoami', 'ping') else [])
             return {'jsonrpc': '2.0', 'id': env.int('first.id'), 'method': m, 'params': params}
         return _step(env, ob, make_doc, probe=True)
 
@@ -335,7 +355,11 @@ def h_step_batch(ob):
             docs = []
             for i, k in enumerate(ob['els']):
                 m = 'vm' if k == 'notif_vm' else k
-                d = {'jsonrpc': '2.0', 'method': m, 'params': {'a': env.int(f'p{i}')} if m == 'js' else [env.int(f'p{i}')]}
+                d = {'jsonrpc': '2.0', 'method': m}
+                if m == 'js':
+                    d['params'] = {'a': env.int(f'p{i}')}
+                elif m not in ('whoami', 'ping'):
+                    d['params'] = [env.int(f'p{i}')]
                 if k != 'notif_vm':
                     d['id'] = env.int(f'id{i}')
                 docs.append(d)
